@@ -33,6 +33,15 @@ func (c *VariantCase) Reqs() []Req {
 func (c *VariantCase) Judge(rs []Res, env *Env) Outcome {
 	o := Outcome{Cell: c.Cell_}
 	if ok, why := env.accepted(&rs[0]); !ok {
+		// refused in every form is a refusal; refused in one form and assembled in another is a difference in outcome
+		for i := range c.Variants {
+			if ok2, _ := env.accepted(&rs[i+1]); ok2 {
+				o.Status = Violated
+				o.Viols = []Violation{{Sig: fmt.Sprintf("%s|%s|%s", c.Prop, strings.SplitN(c.Labels[i], ":", 2)[0], "base-refused"),
+					Detail: fmt.Sprintf("the base program is refused (%s), its variant `%s` assembles\n--- base source:\n%s\n--- variant source:\n%s", why, c.Labels[i], clipStr(string(c.Base), 1500), clipStr(string(c.Variants[i]), 1500))}}
+				return o
+			}
+		}
 		o.Status, o.Note = Rejected, "base: "+why
 		return o
 	}
@@ -122,6 +131,9 @@ func adversarialNames(r *Rand, n int, reserved []string) []string {
 		{"name", "name1", "name10", "name_", "names", "nam", "na", "NAME", "Name"},
 		{"abcdefgh", "abcdefghi", "abcdefg", "Abcdefgh", "abcdefgh_", "abcdefghij"},
 		{"loop", "loop2", "lp", "l", "L", "lo", "loo", "loop_", "LOOP_"},
+		// lower-case spellings of registers, mnemonics and keywords, and names of registers gosk does not have: ordinary identifiers
+		{"ax", "si", "eax", "cr0", "st0", "mov", "db", "equ", "byte", "dword", "short", "org", "resb"},
+		{"kmax", "kbd", "k1", "mm0", "xmm1", "zmm0", "bnd", "ymmword", "r8", "rax", "dr7x"},
 	}
 	fam := append([]string{}, fams[r.Intn(len(fams))]...)
 	Shuffle(r, fam)
@@ -220,7 +232,7 @@ func init() {
 			cases = append(cases, genC15(r, reserved, nv, i%4 == 3))
 		}
 		rep.Rule = "seeded programs with labels and EQUs (flat 16/32-bit with and without ORG; every fourth as WCOFF with all labels GLOBAL) x injective renamings of all labels and EQU names into [A-Za-z_][A-Za-z0-9_]{0,39}: " +
-			"adversarial families (a aa a_ A aA ..; common prefixes/suffixes; case-only differences; 8/9-character names) and random identifiers; names with a reserved word / mnemonic / register name as a prefix are excluded (list read from the tree's two .peg files); " +
+			"adversarial families (a aa a_ A aA ..; common prefixes/suffixes; case-only differences; 8/9-character names; lower-case spellings of registers/mnemonics/keywords and names of registers of other architectures levels) and random identifiers; names with a reserved word / mnemonic / register name as a prefix are excluded (list read from the tree's two .peg files); " +
 			"oracle: flat outputs byte-identical; COFF objects identical except Name fields and string table; programs reference every look-alike name at a different address, so a collision changes bytes; distinct = (mode, origin, format, identifier-count bucket) cells"
 		rep.Extra["reserved_prefix_words"] = len(reserved)
 		outs := RunCases(env, cases)
